@@ -296,8 +296,14 @@ func writeGroupIni(cmd *Command, group *Group, namespace string, writer io.Write
 	}
 }
 
+// iniNeedsQuote reports whether the reader would alter the plain value:
+// surrounding whitespace is trimmed and a leading quote starts a quoted value.
+func iniNeedsQuote(value string) bool {
+	return value != strings.TrimSpace(value) || strings.HasPrefix(value, "\"")
+}
+
 func writeOption(writer io.Writer, optionName string, optionType reflect.Kind, optionKey string, optionValue string, commentOption bool, forceQuote bool) {
-	if forceQuote || (optionType == reflect.String && !isPrint(optionValue)) {
+	if forceQuote || (optionType == reflect.String && (!isPrint(optionValue) || iniNeedsQuote(optionValue))) {
 		optionValue = strconv.Quote(optionValue)
 	}
 
